@@ -25,7 +25,7 @@ META = {
 
 
 def select(s):
-    return (s["changeAt"] == "none" and s["holder"] == "none" and s["faultAt"] != "none"
+    return (not s["symlink"] and s["changeAt"] == "none" and s["holder"] == "none" and s["faultAt"] != "none"
             and s["faultKind"] in ("error", "panic")
             and lc.PHASES.index(s["faultAt"]) <= lc.PHASES.index("written"))
 
